@@ -25,6 +25,8 @@ def plan(tier, seed):
     specs = enc.plan_heads(tier)
     for i, s in enumerate(specs):
         s.update(seed=seed, tier=tier, idx=i)
+    for order in ("asc", "desc"):
+        specs.append({"kind": "siblings", "order": order, "seed": seed, "tier": tier, "idx": 9000 + len(specs)})
     return specs
 
 
@@ -69,9 +71,43 @@ def _slim(case):
             if k in case}
 
 
+def run_siblings(spec, res):
+    """All opcodes that share a mnemonic (CMP 60-63/B7, MV ..., CMPW C6/D6, ...) decoded and executed back to back in ONE
+    process, under every prefix, in ascending (shard 'asc') or descending ('desc') opcode order: whatever the first form
+    leaves behind (a table keyed by mnemonic and prefix, a shared operand object) must not change which locations the
+    second form's text names or its IL touches."""
+    from .. import states
+    from sc62015.pysc62015.instr.opcode_table import OPCODES
+    r = rng(spec["seed"], "c03sib", spec["order"])
+    groups = {}
+    for opcode, d in sorted(OPCODES.items()):
+        cls = d[0] if isinstance(d, tuple) else d
+        groups.setdefault(cls.__name__, []).append(opcode)
+    pairs = 0
+    for pfx in enc.PREFIXES:
+        for name, ops in sorted(groups.items()):
+            if len(ops) < 2:
+                continue
+            order = ops if spec["order"] == "asc" else list(reversed(ops))
+            for op in order:
+                for b2 in (0x04, 0x24, 0x86, 0x35):
+                    case = states.build_case(r, pfx, op, b2, "dist")
+                    res.evaluations += 1
+                    if case is None:
+                        continue
+                    res.monitor("sibling_history")
+                    run_one(res, case)
+                    pairs += 1
+                    break
+    res.count("sibling_cases", pairs)
+
+
 def run_shard(spec) -> Result:
     from .. import states
     res = Result()
+    if spec.get("kind") == "siblings":
+        run_siblings(spec, res)
+        return res
     r = rng(spec["seed"], "c03", spec["idx"])
     nstates = 2 if spec["tier"] == "quick" else 3
     for (pfx, op, b2) in enc.shard_heads(spec):
